@@ -1,6 +1,6 @@
 (** C19 — Domain-name label encoding round-trips and decoding follows RFC 1035.
     Only statements; every proof is [exact <lemma>]. *)
-From DV Require Import Base.Bytes Label.Model Label.Total Label.Spec Label.RoundTrip.
+From DV Require Import Base.Bytes Label.Model Label.Total Label.Spec Label.RoundTrip Label.History.
 
 (** Decoding any byte string terminates without panic: a value or an error. *)
 Theorem C19_decode_total : forall b : bytes,
@@ -41,6 +41,27 @@ Theorem C19_reencode_modified : forall (b : bytes) (l : labels) (ns' : list byte
   labels_to (mkLabels (original l) ns') = Some (labels_to_bytes ns').
 Proof. exact reencode_modified. Qed.
 Print Assumptions C19_reencode_modified.
+
+(** Over histories: whatever sequence of edits of its name list a parsed value has gone through (encodings taken
+    in between change nothing), its encoding depends on the received octets and the CURRENT names only - the
+    received octets while the names are exactly the received ones, the fresh encoding of the current names
+    otherwise; a constructed value always encodes its current names. *)
+Theorem C19_reencode_after_any_edits : forall (b : bytes) (l : labels) (eds : list (list bytes)),
+  labels_from (Some b) = Ok l ->
+  labels_to (edit_run l eds) =
+    if same (names l) (names (edit_run l eds)) then Some b else Some (labels_to_bytes (names (edit_run l eds))).
+Proof. exact reencode_after_edits. Qed.
+Print Assumptions C19_reencode_after_any_edits.
+
+Theorem C19_constructed_after_any_edits : forall (ns : list bytes) (eds : list (list bytes)),
+  labels_to (edit_run (mkLabels None ns) eds) = Some (labels_to_bytes (names (edit_run (mkLabels None ns) eds))).
+Proof. exact encode_fresh_after_edits. Qed.
+Print Assumptions C19_constructed_after_any_edits.
+
+Theorem C19_only_the_last_edit_matters : forall (b : bytes) (l : labels) (eds1 eds2 : list (list bytes)) (e : list bytes),
+  labels_from (Some b) = Ok l -> labels_to (edit_run l (eds1 ++ [e])) = labels_to (edit_run l (eds2 ++ [e])).
+Proof. exact reencode_last_edit_only. Qed.
+Print Assumptions C19_only_the_last_edit_matters.
 
 (** Non-vacuity: a compressed block ("a.bc", then "x" + pointer to "bc"),
     and a valid two-name list at the label-length limit. *)
